@@ -19,29 +19,29 @@ Ltac fx_eq := repeat match goal with
                      end; try reflexivity; try lia.
 
 Lemma made_ka_spec t lr k u a tm : connectionMade_ka t lr k u a tm = (Some (t + (k + eps_ms)), t, true, 0, 0).
-Proof. unfold connectionMade_ka, eps_ms. fx_eq. Qed.
+Proof. unfold connectionMade_ka, connectionMade_ka_g. fx_eq. Qed.
 
 Lemma made_dc_spec t lr k u a tm : connectionMade_dc t lr k u a tm = (Some (t + (k + eps_ms)), t, true, 0, 0).
-Proof. unfold connectionMade_dc, eps_ms. fx_eq. Qed.
+Proof. unfold connectionMade_dc, connectionMade_dc_g. fx_eq. Qed.
 
 Lemma stamp_spec t lr k u a tm :
   dataReceived_stamp t lr k u a tm = (tm, (if a then lr else if u then t else lr), u, 0, 0).
-Proof. unfold dataReceived_stamp. destruct a, u; fx_eq. Qed.
+Proof. unfold dataReceived_stamp, dataReceived_stamp_g. destruct a, u; fx_eq. Qed.
 
 Lemma ka_fired_spec t lr k u a tm :
   keepaliveTimerFired t lr k u a tm = (Some (t + (k + eps_ms)), lr, u, (if k <? t - lr then 1 else 0), 0).
-Proof. unfold keepaliveTimerFired, eps_ms. rewrite ?Z.gtb_ltb. destruct (k <? t - lr); fx_eq. Qed.
+Proof. unfold keepaliveTimerFired, keepaliveTimerFired_g. rewrite ?Z.gtb_ltb. destruct (k <? t - lr); fx_eq. Qed.
 
 Lemma dc_fired_spec t lr d u a tm :
   disconnectTimerFired t lr d u a tm =
   if d <? t - lr then (None, lr, u, 0, 1) else (Some (t + (d + eps_ms)), lr, u, 0, 0).
-Proof. unfold disconnectTimerFired, eps_ms. rewrite ?Z.gtb_ltb. destruct (d <? t - lr); fx_eq. Qed.
+Proof. unfold disconnectTimerFired, disconnectTimerFired_g. rewrite ?Z.gtb_ltb. destruct (d <? t - lr); fx_eq. Qed.
 
 Lemma lost_ka_spec t lr k u a tm : connectionLost_ka t lr k u a tm = (None, lr, u, 0, 0).
-Proof. unfold connectionLost_ka. destruct tm; fx_eq. Qed.
+Proof. unfold connectionLost_ka, connectionLost_ka_g. destruct tm; fx_eq. Qed.
 
 Lemma lost_dc_spec t lr k u a tm : connectionLost_dc t lr k u a tm = (None, lr, u, 0, 0).
-Proof. unfold connectionLost_dc. destruct tm; fx_eq. Qed.
+Proof. unfold connectionLost_dc, connectionLost_dc_g. destruct tm; fx_eq. Qed.
 
 (* ------------------------------------------------------------------------------------------
    2. Field-wise description of one step                                                       *)
@@ -106,11 +106,10 @@ Qed.
 Lemma close_fields c s t :
   let s' := step c s (Close t) in
   now s' = t /\ last_rx s' = last_rx s /\ use_ka s' = use_ka s /\ abandoned s' = abandoned s /\
-  closed s' = true /\ ka s' = (match cK c with Some _ => None | None => ka s end) /\
-  dc s' = (match cT c with Some _ => None | None => dc s end) /\ torn s' = torn s /\ pings s' = pings s.
+  closed s' = true /\ ka s' = None /\ dc s' = None /\ torn s' = torn s /\ pings s' = pings s.
 Proof.
-  unfold step. destruct s as [n lr u a k d cl tn pg]. destruct (cK c) as [kk|], (cT c) as [dd|];
-    try rewrite lost_ka_spec; cbn; try rewrite lost_dc_spec; cbn; repeat split; reflexivity.
+  unfold step. destruct s as [n lr u a k d cl tn pg]. cbn [Timers.ka Timers.dc Timers.last_rx Timers.use_ka Timers.abandoned].
+  rewrite lost_ka_spec. cbn. rewrite lost_dc_spec. cbn. repeat split; reflexivity.
 Qed.
 
 Lemma init_fields c t0 :
@@ -188,7 +187,7 @@ Proof.
     rewrite Fn, Fl, Fu, Fc, Fk, Fd, Ft.
     split; [lia|]. split; [intros x Hx; specialize (Ht x Hx); lia|].
     split; [discriminate|]. split; [discriminate|].
-    split; [intros E; rewrite E; auto|]. split; [intros E; rewrite E; auto|]. exact Hu.
+    split; [reflexivity|]. split; [reflexivity|]. exact Hu.
 Qed.
 
 Lemma step_now c s e : now (step c s e) = ev_time e.
@@ -451,8 +450,7 @@ Proof.
   - destruct (rxbad_fields c s t) as (_ & _ & _ & _ & _ & Fk & Fd & Ft & Fp). cbv zeta. rewrite Fk, Fd, Ft, Fp. auto.
   - destruct (tick_fields c s t) as (_ & _ & _ & _ & _ & Fk & Fd & Ft & Fp). cbv zeta. rewrite Fk, Fd, Ft, Fp.
     unfold ka_after, dc_after, torn_new, pings_new. rewrite Hk, Hd. auto.
-  - destruct (close_fields c s t) as (_ & _ & _ & _ & _ & Fk & Fd & Ft & Fp). cbv zeta. rewrite Fk, Fd, Ft, Fp.
-    rewrite Hk, Hd. destruct (cK c), (cT c); auto.
+  - destruct (close_fields c s t) as (_ & _ & _ & _ & _ & Fk & Fd & Ft & Fp). cbv zeta. rewrite Fk, Fd, Ft, Fp. auto.
 Qed.
 
 Lemma dead_run c evs : forall s, ka s = None -> dc s = None ->
@@ -472,8 +470,8 @@ Proof.
   { apply inv_run; [apply inv_init|]. destruct (init_fields c tc) as (-> & _). exact S. }
   destruct I as (_ & _ & _ & _ & Ikn & Idn & _).
   destruct (close_fields c s t) as (_ & _ & _ & _ & _ & Fk & Fd & Ft & Fp).
-  assert (Hk : ka (step c s (Close t)) = None). { rewrite Fk. destruct (cK c) eqn:E; auto. }
-  assert (Hd : dc (step c s (Close t)) = None). { rewrite Fd. destruct (cT c) eqn:E; auto. }
+  assert (Hk : ka (step c s (Close t)) = None) by exact Fk.
+  assert (Hd : dc (step c s (Close t)) = None) by exact Fd.
   destruct (dead_run c post _ Hk Hd) as (A & B & C & D). unfold s'. rewrite run_cons.
   rewrite A, B, C, D, Ft, Fp. auto.
 Qed.
@@ -494,7 +492,7 @@ Proof.
       destruct (e <=? t); [destruct (d <? t - last_rx s)|]; cbn; split; auto; intros; try reflexivity; congruence.
     + cbn. split; [congruence|exact H2].
   - destruct (close_fields c s t) as (_ & _ & _ & _ & _ & _ & Fd & Ft & _). rewrite Fd, Ft.
-    destruct (cT c); [split; [congruence|exact H2]|auto].
+    split; [congruence|exact H2].
 Qed.
 
 Theorem teardown_at_most_once c tc evs : sorted_from tc evs ->
@@ -704,30 +702,97 @@ Example ex_pp : rx_tokens [(0, 128); (5, tok_PING); (7, 129); (9, tok_PONG); (2 
 Proof. vm_compute. reflexivity. Qed.
 
 (* ------------------------------------------------------------------------------------------
-   10. PING / PONG in every receiver state (also while a rejected sequence is being discarded)   *)
+   11. Every closing path.  connectionLost cancels both timers from ANY state: a connection whose
+       connectionMade never ran (negotiation failed first: the state is `blank`), a connection that
+       was already torn down by the timer, a second connectionLost.                                *)
 
-Definition strip (toks : list tok) : list tok := filter (fun t => negb (is_pp t)) toks.
-
-Theorem rx_disc_spec bad toks : forall d i,
-  rx_disc bad d i toks =
-  (fst (rx_disc bad d i (strip toks)), map fst (filter (fun t => snd t =? tok_PING) toks)).
+Theorem cancel_from_any_state c s t post :
+  let s' := run c s (Close t :: post) in
+  ka s' = None /\ dc s' = None /\ pings s' = pings s /\ torn s' = torn s /\ closed s' = true.
 Proof.
-  induction toks as [|[h ty] r IH]; intros d i; [reflexivity|].
-  cbn [rx_disc strip filter map]. unfold is_pp. cbn [snd fst].
-  destruct (ty =? tok_PING) eqn:E1; cbn [orb negb].
-  - rewrite IH. reflexivity.
-  - destruct (ty =? tok_PONG) eqn:E2; cbn [negb].
-    + rewrite IH. reflexivity.
-    + cbn [rx_disc]. rewrite E1, E2. destruct d as [|d'].
-      * destruct (bad i (h, ty)); [apply IH|].
-        rewrite IH. unfold strip, is_pp.
-        match goal with |- context [rx_disc bad 0 (S i) ?x] => destruct (rx_disc bad 0 (S i) x) end. reflexivity.
-      * destruct (ty =? tok_OPEN); [apply IH|]. destruct (ty =? tok_CLOSE); apply IH.
+  destruct (close_fields c s t) as (_ & _ & _ & _ & Fc & Fk & Fd & Ft & Fp).
+  destruct (dead_run c post _ Fk Fd) as (A & B & C & D). cbv zeta. rewrite run_cons.
+  rewrite A, B, C, D, Ft, Fp. repeat split; auto.
+  clear -Fc. revert Fc. generalize (step c s (Close t)). induction post as [|e r IH]; intros s0 H; [exact H|].
+  rewrite run_cons. apply IH. destruct e as [u|u|u|u].
+  - destruct (rx_fields c s0 u) as (_ & _ & _ & _ & -> & _). exact H.
+  - destruct (rxbad_fields c s0 u) as (_ & _ & _ & _ & -> & _). exact H.
+  - destruct (tick_fields c s0 u) as (_ & _ & _ & _ & -> & _). exact H.
+  - apply (close_fields c s0 u).
 Qed.
 
-Example ex_disc :
-  let bad := fun (i : nat) (t : tok) => Nat.eqb i 2 in
-  rx_disc bad 0 0 [(0, tok_OPEN); (4, tok_PING); (1, 129); (2, 129); (9, tok_PING); (0, tok_OPEN); (8, tok_PONG); (7, tok_PING);
-                   (0, tok_CLOSE); (3, 129); (0, tok_CLOSE); (6, tok_PING); (5, 129)]
-  = ([(0, tok_OPEN); (1, 129); (5, 129)], [4; 9; 7; 6]).
-Proof. vm_compute. reflexivity. Qed.
+(* the timer teardown itself: the disconnect timer is gone for good (it is not re-armed) ... *)
+Theorem no_disconnect_timer_after_teardown c tc evs : sorted_from tc evs ->
+  torn (run c (init c tc) evs) <> [] -> dc (run c (init c tc) evs) = None.
+Proof.
+  intros S N.
+  assert (G : forall evs s, inv c s -> sorted_from (now s) evs -> once_inv s -> once_inv (run c s evs)).
+  { clear. induction evs as [|e r IH]; intros s I S O; [exact O|]. destruct S as [S1 S2]. rewrite run_cons.
+    apply IH; [apply inv_step; assumption | rewrite step_now; exact S2 |].
+    apply once_step; [exact O|]. destruct I as (_ & _ & _ & _ & _ & Idn & _). exact Idn. }
+  assert (O : once_inv (run c (init c tc) evs)).
+  { apply G; [apply inv_init | destruct (init_fields c tc) as (-> & _); exact S |].
+    destruct (init_fields c tc) as (_ & _ & _ & _ & _ & _ & _ & Ft & _). unfold once_inv. rewrite Ft. cbn. auto. }
+  destruct O as [O _]. destruct (dc (run c (init c tc) evs)) eqn:E; [|reflexivity].
+  exfalso. apply N. apply O. discriminate.
+Qed.
+
+(* ... but the keepalive timer is NOT cancelled by the teardown (Broker.shutdown does not touch it): it stays armed and
+   keeps writing PINGs to the transport that was told to close, until the transport delivers connectionLost.
+   ("All timers are cancelled when the connection closes" holds for connectionLost, not for the timer teardown.) *)
+Theorem keepalive_survives_teardown c tc K evs : cK c = Some K -> sorted_from tc evs -> no_close evs ->
+  exists e, ka (run c (init c tc) evs) = Some e.
+Proof.
+  intros EK S N.
+  assert (I : inv c (run c (init c tc) evs)).
+  { apply inv_run; [apply inv_init|]. destruct (init_fields c tc) as (-> & _). exact S. }
+  assert (C : closed (run c (init c tc) evs) = false).
+  { apply closed_run; [apply (init_fields c tc)|exact N]. }
+  destruct I as (_ & _ & Ik & _). destruct (Ik C K EK) as (e & Ee & _). exists e. exact Ee.
+Qed.
+
+Example ex_ping_after_teardown :
+  let s := run c23 (init c23 0) [Tick 2100; Tick 3100; Tick 4200; Tick 6200; Tick 6300; Tick 8400] in
+  torn s = [3100] /\ dc s = None /\ ka s = Some 10500 /\ pings s = [8400; 6300; 4200; 2100].
+Proof. vm_compute. repeat split; reflexivity. Qed.
+
+(* ------------------------------------------------------------------------------------------
+   12. The two callbacks of one reactor turn commute: whichever of keepaliveTimerFired /
+       disconnectTimerFired the reactor runs first, the state after the turn is the same.          *)
+
+(* the turn written with the other order *)
+Definition step_dc_first (c : cfg) (s : st) (e : ev) : st :=
+  match e with Tick t => set_now (fire_ka c (fire_dc c s t) t) t | _ => step c s e end.
+
+Lemma tick_fields_dc_first c s t :
+  let s' := step_dc_first c s (Tick t) in
+  now s' = t /\ last_rx s' = last_rx s /\ use_ka s' = use_ka s /\ abandoned s' = abandoned s /\
+  closed s' = closed s /\ ka s' = ka_after c s t /\ dc s' = dc_after c s t /\
+  torn s' = torn_new c s t ++ torn s /\ pings s' = pings_new c s t ++ pings s.
+Proof.
+  unfold step_dc_first, fire_dc, fire_ka, ka_after, dc_after, torn_new, pings_new.
+  destruct s as [n lr u a k d cl tn pg]; cbn [Timers.ka Timers.dc Timers.last_rx Timers.use_ka Timers.abandoned].
+  destruct d as [ed|], (cT c) as [dd|]; try destruct (ed <=? t);
+    try rewrite dc_fired_spec; try destruct (dd <? t - lr); cbn [apply_dc Timers.ka Timers.last_rx Timers.use_ka Timers.abandoned];
+    destruct k as [ek|], (cK c) as [kk|]; try destruct (ek <=? t);
+    try rewrite ka_fired_spec; try destruct (kk <? t - lr);
+    cbn; repeat split; reflexivity.
+Qed.
+
+Lemma st_ext (a b : st) :
+  now a = now b -> last_rx a = last_rx b -> use_ka a = use_ka b -> abandoned a = abandoned b -> closed a = closed b ->
+  ka a = ka b -> dc a = dc b -> torn a = torn b -> pings a = pings b -> a = b.
+Proof. destruct a, b; cbn; intros; subst; reflexivity. Qed.
+
+Theorem turn_commutes c s t : step_dc_first c s (Tick t) = step c s (Tick t).
+Proof.
+  destruct (tick_fields c s t) as (A1 & A2 & A3 & A4 & A5 & A6 & A7 & A8 & A9).
+  destruct (tick_fields_dc_first c s t) as (B1 & B2 & B3 & B4 & B5 & B6 & B7 & B8 & B9).
+  apply st_ext; congruence.
+Qed.
+
+Theorem callback_order_immaterial c evs : forall s, fold_left (step_dc_first c) evs s = run c s evs.
+Proof.
+  induction evs as [|e r IH]; intros s; [reflexivity|]. cbn [fold_left]. rewrite IH, run_cons. f_equal.
+  destruct e; try reflexivity. apply turn_commutes.
+Qed.
